@@ -90,7 +90,7 @@ Proof.
 Qed.
 
 Theorem uninstall_keeps_modified_proof :
-  forall (prot ign : str -> bool) (off : str) (fs recorded inst : pmap) (P d : str),
+  forall (prot ign : str -> bool) (off : str) (fs recorded inst : pmap) (P : str) (d : fdata),
     protected_file prot ign off fs P d ->
     differs_from_recorded recorded P d ->
     pm_get P (unmerge_fs fs (uninstall_set prot ign off fs recorded inst)) = Some (File d).
@@ -255,7 +255,7 @@ Qed.
 
 (* ---------------------------------------------------------------- never_overwritten *)
 Theorem never_overwritten_proof :
-  forall (prot ign : str -> bool) (off : str) (fs inst : pmap) (P d : str) (n : node),
+  forall (prot ign : str -> bool) (off : str) (fs inst : pmap) (P : str) (d : fdata) (n : node),
     pkg_ok inst ->
     protected_file prot ign off fs P d ->
     incoming_differs inst P d n ->
@@ -314,7 +314,7 @@ Definition newlocs_distinct (prot ign : str -> bool) (off : str) (fs inst : pmap
   NoDup (map r_new (renames prot ign off fs inst)).
 
 Theorem written_beside_proof :
-  forall (prot ign : str -> bool) (off : str) (fs inst : pmap) (P d : str) (n : node),
+  forall (prot ign : str -> bool) (off : str) (fs inst : pmap) (P : str) (d : fdata) (n : node),
     pkg_ok inst ->
     protected_file prot ign off fs P d ->
     incoming_differs inst P d n ->
@@ -463,7 +463,7 @@ Proof.
 Qed.
 
 Theorem recorded_keeps_real_name_proof :
-  forall (prot ign : str -> bool) (off : str) (fs inst : pmap) (P d : str) (n : node),
+  forall (prot ign : str -> bool) (off : str) (fs inst : pmap) (P : str) (d : fdata) (n : node),
     pkg_ok inst ->
     newlocs_distinct prot ign off fs inst ->
     protected_file prot ign off fs P d ->
@@ -494,7 +494,7 @@ Proof.
 Qed.
 
 Theorem incoming_content_beside_proof :
-  forall (prot ign : str -> bool) (off : str) (fs inst : pmap) (P d : str) (n : node),
+  forall (prot ign : str -> bool) (off : str) (fs inst : pmap) (P : str) (d : fdata) (n : node),
     pkg_ok inst ->
     newlocs_distinct prot ign off fs inst ->
     protected_file prot ign off fs P d ->
@@ -518,7 +518,7 @@ Definition protU_of (i : input) := protect_filter (i_envd i) [] [].
 Definition ign_of (i : input) (fs : pmap) := ignore_filter (i_envd i) [] (i_off i) fs.
 
 Theorem run_install_never_overwrites_proof :
-  forall (i : input) (P d : str) (n : node),
+  forall (i : input) (P : str) (d : fdata) (n : node),
     i_mode i = 0%N ->
     pkg_ok (inst_of i) ->
     protected_file (protI_of i) (ign_of i (i_fs i)) (i_off i) (i_fs i) P d ->
@@ -533,7 +533,7 @@ Proof.
 Qed.
 
 Theorem run_uninstall_keeps_modified_proof :
-  forall (i : input) (P d : str),
+  forall (i : input) (P : str) (d : fdata),
     i_mode i = 2%N ->
     protected_file (protU_of i) (ign_of i (i_fs i)) (i_off i) (i_fs i) P d ->
     differs_from_recorded (with_off (i_off i) (i_old i)) P d ->
@@ -557,7 +557,7 @@ Qed.
 
 (* replace: neither half of the engine run touches a protected file that differs from the incoming one *)
 Theorem run_replace_never_overwrites_proof :
-  forall (i : input) (P d : str) (n : node),
+  forall (i : input) (P : str) (d : fdata) (n : node),
     i_mode i = 1%N ->
     pkg_ok (inst_of i) ->
     newlocs_distinct (protI_of i) (ign_of i (i_fs i)) (i_off i) (i_fs i) (inst_of i) ->
@@ -579,7 +579,7 @@ Qed.
 (* replace: the unmerge half keeps a protected file (as the tree is after the merge half) that differs
    from what the old package recorded *)
 Theorem run_replace_keeps_modified_proof :
-  forall (i : input) (P d : str),
+  forall (i : input) (P : str) (d : fdata),
     i_mode i = 1%N ->
     o_blocked (run i) = false ->
     let fs1 := merge_fs (i_fs i) (pre_merge (protI_of i) (ign_of i (i_fs i)) (i_off i) (i_fs i) (inst_of i)) in
@@ -675,20 +675,406 @@ Proof.
   rewrite <- (pending_name_roundtrip_proof x fname c (cfg_listing_cfg _ _ _ H1) H2). auto.
 Qed.
 
+(* ---------------------------------------------------------------- renamed locations are distinct *)
+(* pjoin d n = dprefix d ++ n for a name n that does not start with a slash *)
+Definition dprefix (d : str) : str :=
+  match d with [] => [] | _ => if ends_sl d then d else d ++ [SL] end.
+Lemma pjoin_dprefix d n : n <> [] -> forallb nosl n = true -> pjoin d n = dprefix d ++ n.
+Proof.
+  intros Hne Hn. destruct n as [|c n]; [congruence|]. simpl in Hn. apply andb_prop in Hn. destruct Hn as [Hc _].
+  unfold nosl in Hc. apply negb_true_iff in Hc. unfold pjoin, dprefix. rewrite Hc.
+  destruct d as [|a d]; [reflexivity|]. destruct (ends_sl (a :: d)); [reflexivity|].
+  rewrite <- app_assoc. reflexivity.
+Qed.
+Lemma dprefix_dir d : dir_prefix (dprefix d).
+Proof.
+  unfold dprefix. destruct d as [|a d]; [left; reflexivity|].
+  destruct (ends_sl (a :: d)) eqn:E; right; [apply ends_sl_spec; exact E|eexists; reflexivity].
+Qed.
+(* x ++ n determines x and n when x is a directory prefix and n has no slash *)
+Lemma rev_inj (a b : str) : rev a = rev b -> a = b.
+Proof. intro H. rewrite <- (rev_involutive a), <- (rev_involutive b), H. reflexivity. Qed.
+Lemma split_unique x1 n1 x2 n2 :
+  dir_prefix x1 -> dir_prefix x2 -> forallb nosl n1 = true -> forallb nosl n2 = true ->
+  x1 ++ n1 = x2 ++ n2 -> x1 = x2 /\ n1 = n2.
+Proof.
+  intros H1 H2 Hn1 Hn2 E.
+  assert (En : n1 = n2).
+  { rewrite <- (basename_app x1 n1 H1 Hn1), <- (basename_app x2 n2 H2 Hn2), E. reflexivity. }
+  subst n2. split; [|reflexivity]. apply app_inv_tail in E. exact E.
+Qed.
+
+Definition nous (c : N) : bool := negb (N.eqb c US).
+Lemma digit_of_nous z : nous (digit_of z) = true.
+Proof.
+  unfold nous, US, digit_of. apply negb_true_iff. apply N.eqb_neq.
+  pose proof (Z.mod_pos_bound z 10 ltac:(lia)). lia.
+Qed.
+Lemma digits_nous fuel w z : forallb nous (digits fuel w z) = true.
+Proof.
+  revert w z. induction fuel as [|f IH]; intros w z; [reflexivity|].
+  assert (H : forall w', forallb nous (digits f w' (z / 10) ++ [digit_of z]) = true).
+  { intro w'. rewrite forallb_app, IH. cbn [forallb]. rewrite digit_of_nous. reflexivity. }
+  cbn [digits]. destruct w.
+  - destruct (z =? 0)%Z; [reflexivity|apply H].
+  - apply H.
+Qed.
+Lemma fmt04_nous z : forallb nous (fmt04 z) = true.
+Proof.
+  unfold fmt04. destruct (z <? 0)%Z.
+  - cbn [forallb]. rewrite digits_nous. reflexivity.
+  - apply digits_nous.
+Qed.
+(* a ++ "_" ++ r determines a and r when a has no "_" *)
+Lemma split_at_us a1 r1 a2 r2 :
+  forallb nous a1 = true -> forallb nous a2 = true ->
+  a1 ++ US :: r1 = a2 ++ US :: r2 -> a1 = a2 /\ r1 = r2.
+Proof.
+  revert a2. induction a1 as [|c a1 IH]; intros a2 H1 H2 E.
+  - destruct a2 as [|c2 a2]; simpl in E.
+    + inversion E. auto.
+    + inversion E; subst. cbn in H2. discriminate.
+  - destruct a2 as [|c2 a2]; simpl in E.
+    + inversion E; subst. cbn in H1. discriminate.
+    + inversion E; subst. simpl in H1, H2. apply andb_prop in H1, H2.
+      destruct (IH a2 (proj2 H1) (proj2 H2) H3) as [-> ->]. auto.
+Qed.
+Lemma cfg_name_inj c1 b1 c2 b2 : cfg_name c1 b1 = cfg_name c2 b2 -> b1 = b2.
+Proof.
+  unfold cfg_name. intro E. apply app_inv_head in E.
+  apply (split_at_us _ _ _ _ (fmt04_nous c1) (fmt04_nous c2)) in E. apply E.
+Qed.
+
+Lemma wf_loc_shape p : wf_locb p = true ->
+  p = dprefix (dirname p) ++ basename p /\ basename p <> [].
+Proof.
+  unfold wf_locb. intro H. apply andb_prop in H. destruct H as [Hne He]. apply str_eqb_eq in He.
+  assert (Hb : basename p <> []) by (destruct (basename p); [discriminate|congruence]).
+  split; [|exact Hb]. rewrite <- pjoin_dprefix; auto. apply basename_nosl.
+Qed.
+Lemma new_loc_shape fs p n : new_loc fs p n = dprefix (dirname p) ++ cfg_name (cfg_count fs p n) (basename p).
+Proof.
+  unfold new_loc. apply pjoin_dprefix.
+  - unfold cfg_name, cfgp. discriminate.
+  - apply cfg_name_nosl, basename_nosl.
+Qed.
+Lemma new_loc_inj fs p1 n1 p2 n2 :
+  wf_locb p1 = true -> wf_locb p2 = true -> new_loc fs p1 n1 = new_loc fs p2 n2 -> p1 = p2.
+Proof.
+  intros W1 W2 E. rewrite !new_loc_shape in E.
+  apply split_unique in E; try apply dprefix_dir; try (apply cfg_name_nosl, basename_nosl).
+  destruct E as [Ed Ec]. apply cfg_name_inj in Ec.
+  destruct (wf_loc_shape _ W1) as [E1 _]. destruct (wf_loc_shape _ W2) as [E2 _].
+  etransitivity; [exact E1|]. rewrite Ed, Ec. symmetry. exact E2.
+Qed.
+
+Lemma NoDup_map_inj {A B} (g : A -> B) (l : list A) :
+  NoDup l -> (forall x y, In x l -> In y l -> g x = g y -> x = y) -> NoDup (map g l).
+Proof.
+  induction l as [|a l IH]; simpl; intros Hnd Hinj; [constructor|].
+  inversion Hnd as [|? ? Hni Hnd']; subst. constructor.
+  - intro Hin. apply in_map_iff in Hin. destruct Hin as [y [Hy Hin]].
+    assert (y = a) by (apply Hinj; auto). subst. contradiction.
+  - apply IH; auto.
+Qed.
+Lemma NoDup_keys_NoDup (m : pmap) : NoDup (map fst m) -> NoDup m.
+Proof. apply NoDup_map_inv. Qed.
+
+Theorem newlocs_distinct_proof :
+  forall (prot ign : str -> bool) (off : str) (fs inst : pmap),
+    pkg_ok inst -> locs_wf inst = true -> newlocs_distinct prot ign off fs inst.
+Proof.
+  intros prot ign off fs inst [Hnd _] Hwf. unfold newlocs_distinct, renames. rewrite map_map.
+  apply NoDup_map_inj.
+  - apply NoDup_filter, NoDup_keys_NoDup, Hnd.
+  - intros [p1 n1] [p2 n2] H1 H2 E. unfold r_new in E. simpl in E.
+    apply filter_In in H1, H2. destruct H1 as [H1 _], H2 as [H2 _].
+    unfold locs_wf in Hwf. rewrite forallb_forall in Hwf.
+    pose proof (Hwf _ H1) as W1. pose proof (Hwf _ H2) as W2. simpl in W1, W2.
+    pose proof (new_loc_inj fs p1 n1 p2 n2 W1 W2 E). subst p2.
+    f_equal. eapply nodup_keys_unique; eauto.
+Qed.
+
+(* ---------------------------------------------------------------- same directory *)
+Lemma drop_nosl_app (a b : str) : forallb nosl a = true ->
+  drop_while (fun c => negb (is_sl c)) (a ++ b) = drop_while (fun c => negb (is_sl c)) b.
+Proof.
+  induction a as [|c a IH]; simpl; auto. intro H. apply andb_prop in H. destruct H as [H1 H2].
+  unfold nosl in H1. rewrite H1. auto.
+Qed.
+Lemma dirname_app_nosl x n1 n2 : forallb nosl n1 = true -> forallb nosl n2 = true ->
+  dirname (x ++ n1) = dirname (x ++ n2).
+Proof.
+  intros H1 H2. unfold dirname. rewrite !rev_app_distr.
+  rewrite !drop_nosl_app by (rewrite forallb_rev; assumption). reflexivity.
+Qed.
+Theorem same_directory_proof :
+  forall (fs : pmap) (P : str) (n : node),
+    wf_locb P = true ->
+    dirname (new_loc fs P n) = dirname P /\
+    basename (new_loc fs P n) = cfg_name (cfg_count fs P n) (basename P).
+Proof.
+  intros fs P n W. split; [|apply new_loc_basename].
+  rewrite new_loc_shape. destruct (wf_loc_shape _ W) as [E _].
+  transitivity (dirname (dprefix (dirname P) ++ basename P)); [|rewrite <- E; reflexivity].
+  apply dirname_app_nosl; [apply cfg_name_nosl|]; apply basename_nosl.
+Qed.
+
+(* ---------------------------------------------------------------- the conclusions without newlocs_distinct *)
+Lemma locs_wf_in inst P n : locs_wf inst = true -> In (P, n) inst -> wf_locb P = true.
+Proof. unfold locs_wf. rewrite forallb_forall. intros H Hin. apply (H (P, n) Hin). Qed.
+
+Theorem written_beside2_proof :
+  forall (prot ign : str -> bool) (off : str) (fs inst : pmap) (P : str) (d : fdata) (n : node),
+    pkg_ok inst -> locs_wf inst = true ->
+    protected_file prot ign off fs P d ->
+    incoming_differs inst P d n ->
+    let c := cfg_count fs P n in
+    let dest := pjoin (dirname P) (cfg_name c (basename P)) in
+    numbering_rule fs (dirname P) (basename P) n c /\
+    In ((dest, n), (P, n)) (renames prot ign off fs inst) /\
+    pm_get dest (pre_merge prot ign off fs inst) = Some n.
+Proof.
+  intros prot ign off fs inst P d n Hok Hwf Hp Hd.
+  destruct (written_beside_proof prot ign off fs inst P d n Hok Hp Hd) as [H1 [H2 H3]].
+  repeat split; auto. apply H3, newlocs_distinct_proof; auto.
+Qed.
+Theorem incoming_content_beside2_proof :
+  forall (prot ign : str -> bool) (off : str) (fs inst : pmap) (P : str) (d : fdata) (n : node),
+    pkg_ok inst -> locs_wf inst = true ->
+    protected_file prot ign off fs P d ->
+    incoming_differs inst P d n ->
+    n <> Dir ->
+    pm_get (pjoin (dirname P) (cfg_name (cfg_count fs P n) (basename P)))
+           (merge_fs fs (pre_merge prot ign off fs inst)) = Some n.
+Proof. intros. apply incoming_content_beside_proof with (d := d); auto. apply newlocs_distinct_proof; auto. Qed.
+Theorem recorded_keeps_real_name2_proof :
+  forall (prot ign : str -> bool) (off : str) (fs inst : pmap) (P : str) (d : fdata) (n : node),
+    pkg_ok inst -> locs_wf inst = true ->
+    protected_file prot ign off fs P d ->
+    incoming_differs inst P d n ->
+    let recorded := post_merge prot ign off fs inst (pre_merge prot ign off fs inst) in
+    pm_get P recorded = Some n /\
+    pm_get (pjoin (dirname P) (cfg_name (cfg_count fs P n) (basename P))) recorded = None.
+Proof. intros. apply recorded_keeps_real_name_proof with (d := d); auto. apply newlocs_distinct_proof; auto. Qed.
+Theorem run_replace_never_overwrites2_proof :
+  forall (i : input) (P : str) (d : fdata) (n : node),
+    i_mode i = 1%N ->
+    pkg_ok (inst_of i) -> locs_wf (inst_of i) = true ->
+    protected_file (protI_of i) (ign_of i (i_fs i)) (i_off i) (i_fs i) P d ->
+    incoming_differs (inst_of i) P d n ->
+    pm_get P (o_fs (run i)) = Some (File d).
+Proof. intros. apply run_replace_never_overwrites_proof with (n := n); auto. apply newlocs_distinct_proof; auto. Qed.
+
+(* the ._cfg file: same directory, generated name, incoming content AND mode/owner *)
+Theorem cfg_file_same_directory_incoming_attrs_proof :
+  forall (prot ign : str -> bool) (off : str) (fs inst : pmap) (P : str) (d : fdata) (content attrs : str),
+    pkg_ok inst -> locs_wf inst = true ->
+    protected_file prot ign off fs P d ->
+    incoming_differs inst P d (File (content, attrs)) ->
+    let dest := new_loc fs P (File (content, attrs)) in
+    dirname dest = dirname P /\
+    basename dest = cfg_name (cfg_count fs P (File (content, attrs))) (basename P) /\
+    pm_get dest (merge_fs fs (pre_merge prot ign off fs inst)) = Some (File (content, attrs)).
+Proof.
+  intros prot ign off fs inst P d c a Hok Hwf Hp Hd. cbv zeta.
+  assert (W : wf_locb P = true) by (eapply locs_wf_in; [exact Hwf|apply Hd]).
+  destruct (same_directory_proof fs P (File (c, a)) W) as [H1 H2]. repeat split; auto.
+  apply (incoming_content_beside2_proof prot ign off fs inst P d (File (c, a)) Hok Hwf Hp Hd). discriminate.
+Qed.
+
+(* ================================================================ the filters, declaratively *)
+
+
+Lemma starts_with_app pre r : starts_with pre (pre ++ r) = true.
+Proof. induction pre as [|a pre IH]; simpl; auto. rewrite N.eqb_refl. exact IH. Qed.
+Lemma starts_with_iff' pre s : starts_with pre s = true <-> exists r, s = pre ++ r.
+Proof. split; [apply starts_with_app_inv|intros [r ->]; apply starts_with_app]. Qed.
+
+Lemma prefix_pat_below x p : starts_with (prefix_pat x) p = true <-> below_dir x p.
+Proof.
+  unfold prefix_pat, below_dir. rewrite starts_with_iff'. split; intros [r ->]; exists r; rewrite <- app_assoc; reflexivity.
+Qed.
+Lemma existsb_below l p :
+  existsb (fun x => starts_with (prefix_pat x) p) l = true <-> exists x, In x l /\ below_dir x p.
+Proof.
+  rewrite existsb_exists. split; intros [x [H1 H2]]; exists x; split; auto; apply prefix_pat_below; auto.
+Qed.
+
+Theorem protect_filter_spec_proof :
+  forall (e : list envfile) (xp xm : list str) (p : str),
+    protect_filter e xp xm p = true <->
+    (exists x, In x (protect_entries e xp) /\ below_dir x p) /\
+    ~ (exists x, In x (mask_entries e xm) /\ below_dir x p).
+Proof.
+  intros e xp xm p. unfold protect_filter, protect_entries, mask_entries.
+  rewrite andb_true_iff, negb_true_iff, existsb_below, <- not_true_iff_false, existsb_below. reflexivity.
+Qed.
+
+Theorem env_words_proof :
+  forall (e : list envfile) (k w : str), In w (collapsed true k e) <-> env_word e k w.
+Proof.
+  intros e k w. unfold collapsed, env_word. cbn [orb].
+  rewrite in_flat_map. unfold values_of. split.
+  - intros [v [Hv Hw]]. apply in_flat_map in Hv. destruct Hv as [f [Hf Hv]].
+    destruct (assoc k (snd f)) eqn:E; [|destruct Hv]. destruct Hv as [<-|[]]. exists f, s. auto.
+  - intros [f [v [Hf [Ha Hw]]]]. exists v. split; auto. apply in_flat_map. exists f. split; auto.
+    rewrite Ha. left. reflexivity.
+Qed.
+
+(* component boundary: neither the directory itself nor a sibling that merely shares the prefix *)
+Theorem below_dir_boundary_proof :
+  forall (x rest : str) (c : N),
+    ~ below_dir x (rstrip_sl (normpath x)) /\
+    (c <> SL -> ~ below_dir x (rstrip_sl (normpath x) ++ c :: rest)) /\
+    below_dir x (rstrip_sl (normpath x) ++ SL :: rest).
+Proof.
+  intros x rest c. repeat split.
+  - intros [r H]. apply (f_equal (@length N)) in H. rewrite app_length in H. simpl in H. lia.
+  - intros Hc [r H]. apply app_inv_head in H. inversion H. contradiction.
+  - exists rest. reflexivity.
+Qed.
+
+(* ---------------------------------------------------------------- fnmatch *)
+Lemma gmatch_star r s :
+  gmatch (PStar :: r) s = gmatch r s || match s with [] => false | _ :: s' => gmatch (PStar :: r) s' end.
+Proof. destruct s; reflexivity. Qed.
+Lemma gmatch_item it r s : it <> PStar ->
+  gmatch (it :: r) s = match s with [] => false | c :: s' => item_ok it c && gmatch r s' end.
+Proof. intro H. destruct it; try reflexivity. congruence. Qed.
+
+Lemma gmatch_glob items s : gmatch items s = true -> glob items s.
+Proof.
+  revert s. induction items as [|it r IH]; intros s H.
+  - destruct s; [constructor|discriminate].
+  - destruct (match it with PStar => true | _ => false end) eqn:Eit.
+    + destruct it; try discriminate. induction s as [|c s IHs].
+      * rewrite gmatch_star in H. rewrite orb_false_r in H. apply g_star_skip, IH, H.
+      * rewrite gmatch_star in H. apply orb_prop in H. destruct H as [H|H].
+        -- apply g_star_skip, IH, H.
+        -- apply g_star_eat, IHs, H.
+    + assert (Hn : it <> PStar) by (intro; subst; discriminate).
+      rewrite gmatch_item in H by exact Hn. destruct s as [|c s]; [discriminate|].
+      apply andb_prop in H. destruct H as [H1 H2]. apply g_item; auto.
+Qed.
+Lemma glob_gmatch items s : glob items s -> gmatch items s = true.
+Proof.
+  induction 1.
+  - reflexivity.
+  - rewrite gmatch_star, IHglob. reflexivity.
+  - rewrite gmatch_star, IHglob. apply orb_true_r.
+  - rewrite gmatch_item by assumption. rewrite H0, IHglob. reflexivity.
+Qed.
+Theorem fnmatch_spec_proof : forall pat s : str, fnmatch pat s = true <-> glob_pat pat s.
+Proof. intros. unfold fnmatch, glob_pat. split; [apply gmatch_glob|apply glob_gmatch]. Qed.
+
+Lemma uniq_in x l : In x (uniq l) <-> In x l.
+Proof.
+  induction l as [|y l IH]; simpl; [tauto|]. split.
+  - intros [H|H]; auto. apply filter_In in H. right. apply IH, H.
+  - intros [H|H]; auto. destruct (str_eqb y x) eqn:E.
+    + apply str_eqb_eq in E. auto.
+    + right. apply filter_In. split; [apply IH, H|]. rewrite E. reflexivity.
+Qed.
+
+
+Theorem ignore_filter_spec_proof :
+  forall (e : list envfile) (xi : list str) (off : str) (fs : pmap) (p : str),
+    ignore_filter e xi off fs p = true <->
+    exists x, In x (ignore_entries e xi) /\ glob_pat (ignore_entry_pat off fs x) p.
+Proof.
+  intros e xi off fs p. unfold ignore_filter, ignore_pats. rewrite existsb_exists. split.
+  - intros [pat [Hin Hm]]. apply in_map_iff in Hin. destruct Hin as [x [<- Hx]].
+    exists x. split; [apply uniq_in, Hx|apply fnmatch_spec_proof, Hm].
+  - intros [x [Hx Hm]]. exists (ignore_entry_pat off fs x). split.
+    + apply in_map_iff. exists x. split; [reflexivity|apply uniq_in, Hx].
+    + apply fnmatch_spec_proof, Hm.
+Qed.
+
+(* ---- what glob means for the shapes that matter, for ALL paths *)
+Lemma glob_lits l r s : glob (map PLit l ++ r) s <-> exists s', s = l ++ s' /\ glob r s'.
+Proof.
+  revert s. induction l as [|c l IH]; intros s; simpl.
+  - split; [intro H; exists s; auto|intros [s' [-> H]]; exact H].
+  - split.
+    + intro H. inversion H; subst; clear H.
+      match goal with Hok : item_ok (PLit c) ?x = true |- _ => simpl in Hok; apply N.eqb_eq in Hok; subst end.
+      match goal with Hg : glob (map PLit l ++ r) _ |- _ => apply IH in Hg; destruct Hg as [s' [-> Hg]]; exists s'; auto end.
+    + intros [s' [-> H]]. apply g_item; [discriminate|simpl; apply N.eqb_refl|]. apply IH. exists s'. auto.
+Qed.
+Lemma glob_star_any s : glob [PStar] s.
+Proof. induction s; [apply g_star_skip, g_nil|apply g_star_eat; assumption]. Qed.
+Lemma glob_star r s : glob (PStar :: r) s <-> exists a b, s = a ++ b /\ glob r b.
+Proof.
+  split.
+  - intro H. remember (PStar :: r) as items eqn:E. induction H; try discriminate.
+    + inversion E; subst. exists [], s. auto.
+    + inversion E; subst. destruct (IHglob eq_refl) as [a [b [-> Hb]]]. exists (c :: a), b. auto.
+    + inversion E; subst. congruence.
+  - intros [a [b [-> H]]]. induction a; simpl; [apply g_star_skip, H|apply g_star_eat, IHa].
+Qed.
+Lemma parse_pat_plain l r k : forallb plain l = true ->
+  parse_pat (length l + k) (l ++ r) = map PLit l ++ parse_pat k r.
+Proof.
+  induction l as [|c l IH]; simpl; intro H; [reflexivity|].
+  apply andb_prop in H. destruct H as [Hc Hl]. unfold plain in Hc.
+  apply andb_prop in Hc. destruct Hc as [Hc H3]. apply andb_prop in Hc. destruct Hc as [H1 H2].
+  apply negb_true_iff in H1, H2, H3. rewrite H1, H2, H3. f_equal. apply IH, Hl.
+Qed.
+
+(* a pattern without * ? [ matches exactly itself (full match, not a search) *)
+Theorem literal_pattern_proof : forall l s : str, forallb plain l = true -> (fnmatch l s = true <-> s = l).
+Proof.
+  intros l s Hp. rewrite fnmatch_spec_proof. unfold glob_pat.
+  replace (S (length l)) with (length l + 1)%nat by lia.
+  rewrite <- (app_nil_r l) at 2. rewrite parse_pat_plain by exact Hp. cbn [parse_pat].
+  rewrite glob_lits. split.
+  - intros [s' [-> H]]. inversion H. rewrite app_nil_r. reflexivity.
+  - intros ->. exists []. rewrite app_nil_r. split; [reflexivity|constructor].
+Qed.
+(* a directory entry d (rewritten to "d/*") matches exactly the paths below d, at any depth *)
+Theorem directory_pattern_proof : forall l s : str, forallb plain l = true ->
+  (fnmatch (l ++ slash_star) s = true <-> exists rest, s = l ++ SL :: rest).
+Proof.
+  intros l s Hp. rewrite fnmatch_spec_proof. unfold glob_pat.
+  replace (S (length (l ++ slash_star))) with (length l + 3)%nat by (rewrite app_length; simpl; lia).
+  rewrite parse_pat_plain by exact Hp.
+  change (parse_pat 3 slash_star) with (map PLit [SL] ++ [PStar]).
+  rewrite glob_lits. split.
+  - intros [s' [-> H]]. apply glob_lits in H. destruct H as [s'' [-> _]]. exists s''. reflexivity.
+  - intros [rest ->]. exists (SL :: rest). split; [reflexivity|]. apply glob_lits. exists rest. split; [reflexivity|apply glob_star_any].
+Qed.
+(* the two built-in patterns *)
+Theorem keep_patterns_proof : forall s : str,
+  (fnmatch keep1 s = true <-> exists pre, s = pre ++ [47; 46; 107; 101; 101; 112]%N) /\
+  (fnmatch keep2 s = true <-> exists pre suf, s = pre ++ [47; 46; 107; 101; 101; 112; 95]%N ++ suf).
+Proof.
+  intro s. split; rewrite fnmatch_spec_proof; unfold glob_pat.
+  - change (parse_pat (S (length keep1)) keep1) with (PStar :: map PLit [47; 46; 107; 101; 101; 112]%N ++ []).
+    rewrite glob_star. split.
+    + intros [a [b [-> H]]]. apply glob_lits in H. destruct H as [s' [-> H]]. inversion H. exists a. rewrite app_nil_r. reflexivity.
+    + intros [pre ->]. exists pre, [47; 46; 107; 101; 101; 112]%N. split; [reflexivity|]. apply glob_lits. exists []. split; [reflexivity|constructor].
+  - change (parse_pat (S (length keep2)) keep2) with (PStar :: map PLit [47; 46; 107; 101; 101; 112; 95]%N ++ [PStar]).
+    rewrite glob_star. split.
+    + intros [a [b [-> H]]]. apply glob_lits in H. destruct H as [s' [-> _]]. exists a, s'. reflexivity.
+    + intros [pre [suf ->]]. exists pre, ([47; 46; 107; 101; 101; 112; 95]%N ++ suf). split; [reflexivity|].
+      apply glob_lits. exists suf. split; [reflexivity|apply glob_star_any].
+Qed.
+
 (* ---------------------------------------------------------------- the hypotheses are satisfiable *)
-Definition S (b : bstr) : str := s2l b.
+Definition B (b : bstr) : str := s2l b.
 Definition ex_fs : pmap :=
-  [(S "/etc/foo"%bs, File (S "L"%bs)); (S "/etc/._cfg0003_foo"%bs, File (S "N"%bs));
-   (S "/etc/._cfg0001_foo"%bs, File (S "X"%bs)); (S "/opt/c/bar"%bs, File (S "M"%bs));
-   (S "/etc/.keep"%bs, File (S "K"%bs))].
+  [(B "/etc/foo"%bs, File (B "L"%bs, B "644.0.0"%bs)); (B "/etc/._cfg0003_foo"%bs, File (B "N"%bs, B "644.0.0"%bs));
+   (B "/etc/._cfg0001_foo"%bs, File (B "X"%bs, B "644.0.0"%bs)); (B "/opt/c/bar"%bs, File (B "M"%bs, B "644.0.0"%bs));
+   (B "/etc/.keep"%bs, File (B "K"%bs, B "644.0.0"%bs))].
 Definition ex_inst : pmap :=
-  [(S "/etc"%bs, Dir); (S "/etc/foo"%bs, File (S "N"%bs)); (S "/etc/.keep"%bs, File (S "K2"%bs))].
+  [(B "/etc"%bs, Dir); (B "/etc/foo"%bs, File (B "N"%bs, B "644.0.0"%bs)); (B "/etc/.keep"%bs, File (B "K2"%bs, B "644.0.0"%bs))].
 Definition ex_prot := protect_filter [] [] [].
 Definition ex_ign := ignore_filter [] [] [SL] ex_fs.
 
-Example ex_protected : protected_file ex_prot ex_ign [SL] ex_fs (S "/etc/foo"%bs) (S "L"%bs).
+Example ex_protected : protected_file ex_prot ex_ign [SL] ex_fs (B "/etc/foo"%bs) (B "L"%bs, B "644.0.0"%bs).
 Proof. repeat split; vm_compute; reflexivity. Qed.
-Example ex_differs : incoming_differs ex_inst (S "/etc/foo"%bs) (S "L"%bs) (File (S "N"%bs)).
+Example ex_differs : incoming_differs ex_inst (B "/etc/foo"%bs) (B "L"%bs, B "644.0.0"%bs) (File (B "N"%bs, B "644.0.0"%bs)).
 Proof. split; [vm_compute; tauto|reflexivity]. Qed.
 Example ex_pkg_ok : pkg_ok ex_inst.
 Proof.
@@ -699,20 +1085,42 @@ Qed.
 Example ex_distinct : newlocs_distinct ex_prot ex_ign [SL] ex_fs ex_inst.
 Proof. vm_compute. repeat constructor; simpl; intuition discriminate. Qed.
 (* the identical pending update 0003 is reused (0001 differs); without it the number would be 4 *)
-Example ex_reuse : new_loc ex_fs (S "/etc/foo"%bs) (File (S "N"%bs)) = S "/etc/._cfg0003_foo"%bs.
+Example ex_reuse : new_loc ex_fs (B "/etc/foo"%bs) (File (B "N"%bs, B "644.0.0"%bs)) = B "/etc/._cfg0003_foo"%bs.
 Proof. vm_compute. reflexivity. Qed.
-Example ex_exceed : new_loc ex_fs (S "/etc/foo"%bs) (File (S "Q"%bs)) = S "/etc/._cfg0004_foo"%bs.
+Example ex_exceed : new_loc ex_fs (B "/etc/foo"%bs) (File (B "Q"%bs, B "644.0.0"%bs)) = B "/etc/._cfg0004_foo"%bs.
 Proof. vm_compute. reflexivity. Qed.
 (* .keep is under /etc but matched by COLLISION_IGNORE's built-in */.keep: not protected *)
-Example ex_keep_ignored : ex_ign (S "/etc/.keep"%bs) = true.
+Example ex_keep_ignored : ex_ign (B "/etc/.keep"%bs) = true.
 Proof. vm_compute. reflexivity. Qed.
 Example ex_merge :
   show_tree (merge_fs ex_fs (pre_merge ex_prot ex_ign [SL] ex_fs ex_inst))
-  = S "/etc/._cfg0001_foo;f;X|/etc/._cfg0003_foo;f;N|/etc/.keep;f;K2|/etc/foo;f;L|/opt/c/bar;f;M"%bs.
+  = B "/etc/._cfg0001_foo;f;X,644.0.0|/etc/._cfg0003_foo;f;N,644.0.0|/etc/.keep;f;K2,644.0.0|/etc/foo;f;L,644.0.0|/opt/c/bar;f;M,644.0.0"%bs.
 Proof. vm_compute. reflexivity. Qed.
 Example ex_uninstall :
-  differs_from_recorded [(S "/etc/foo"%bs, File (S "R"%bs))] (S "/etc/foo"%bs) (S "L"%bs)
+  differs_from_recorded [(B "/etc/foo"%bs, File (B "R"%bs, B "644.0.0"%bs))] (B "/etc/foo"%bs) (B "L"%bs, B "644.0.0"%bs)
   /\ show_tree (unmerge_fs ex_fs (uninstall_set ex_prot ex_ign [SL] ex_fs
-                  [(S "/etc/foo"%bs, File (S "R"%bs)); (S "/opt/c/bar"%bs, File (S "R2"%bs))] []))
-     = S "/etc/._cfg0001_foo;f;X|/etc/._cfg0003_foo;f;N|/etc/.keep;f;K|/etc/foo;f;L"%bs.
+                  [(B "/etc/foo"%bs, File (B "R"%bs, B "644.0.0"%bs)); (B "/opt/c/bar"%bs, File (B "R2"%bs, B "644.0.0"%bs))] []))
+     = B "/etc/._cfg0001_foo;f;X,644.0.0|/etc/._cfg0003_foo;f;N,644.0.0|/etc/.keep;f;K,644.0.0|/etc/foo;f;L,644.0.0"%bs.
 Proof. split; [eexists; split; reflexivity|vm_compute; reflexivity]. Qed.
+
+Example ex_locs_wf : locs_wf ex_inst = true.
+Proof. vm_compute. reflexivity. Qed.
+(* the ._cfg file takes the incoming mode/owner, the protected file keeps its own *)
+Example ex_attrs :
+  show_tree (merge_fs [(B "/o/etc/foo"%bs, File (B "L"%bs, B "600.0.0"%bs))]
+               (pre_merge ex_prot (ignore_filter [] [] (B "/o"%bs) []) (B "/o"%bs)
+                          [(B "/o/etc/foo"%bs, File (B "L"%bs, B "600.0.0"%bs))]
+                          [(B "/o/etc/foo"%bs, File (B "N"%bs, B "640.1000.100"%bs))]))
+  = B "/o/etc/._cfg0000_foo;f;N,640.1000.100|/o/etc/foo;f;L,600.0.0"%bs.
+Proof. vm_compute. reflexivity. Qed.
+(* component boundary, mask, normalised entries *)
+Example ex_filter :
+  map (protect_filter [(B "10a"%bs, [(k_cp, B "/opt/c //opt/../opt/d/"%bs); (k_cpm, B "/etc/m"%bs)])] [] [])
+      [B "/etc/foo"%bs; B "/etcx/foo"%bs; B "/etc"%bs; B "/etc/m/a"%bs; B "/etc/mm"%bs; B "/opt/c/a"%bs; B "/opt/cc"%bs; B "/opt/d/a"%bs]
+  = [true; false; false; false; true; true; false; false].
+Proof. vm_compute. reflexivity. Qed.
+Example ex_ignore :
+  map (ignore_filter [(B "10a"%bs, [(k_ci, B "/etc/q /etc/x /etc/[ab]*"%bs)])] [] [SL] [(B "/etc/x/y"%bs, File (B "c"%bs, []))])
+      [B "/etc/q"%bs; B "/usr/etc/q"%bs; B "/etc/x/y"%bs; B "/etc/x"%bs; B "/etc/bar"%bs; B "/etc/car"%bs; B "/a/b/.keep"%bs; B "/a/.keep_x-0"%bs; B "/a/.keepx"%bs]
+  = [true; false; true; false; true; false; true; true; false].
+Proof. vm_compute. reflexivity. Qed.
